@@ -798,7 +798,9 @@ def formatItemListLoop : Nat → Str → List Slot
           formatItemListLoop fuel (skipComma (lstrip (cur.drop (fi.2 + 1))))
       else match hollerithPrefix cur with
       | some m =>
-        (match pyInt m.dropLast with
+        -- `hol_length_str = match_str[:-1].replace(" ", "")` (fa6d1cf; before: `match_str[:-1]`,
+        -- and `int("1 2")` raised); the `ValueError` branch of `int` is kept and PROVED unreachable
+        (match pyInt (Combi.noSpaces m.dropLast) with
           | none => [.raise .valueError]
           | some n =>
             let numChars := m.length + n
